@@ -629,11 +629,27 @@ impl Processor {
         //  RotondaRoute announcements:
         let rr_reach = explode_announcements(&bgp_msg)?;
         let rr_unreach = explode_withdrawals(&bgp_msg)?;
+        // RFC 4271 section 4.3: a prefix listed both as withdrawn and in the
+        // NLRI is to be treated as announced, so the withdrawals go first.
         let context = FreshRouteContext::new(
             bgp_msg.clone(),
-            RouteStatus::Active,
+            RouteStatus::Withdrawn,
             provenance,
         );
+
+        payloads.extend(rr_unreach.into_iter().map(|rr|
+            //mk_payload(wds, received, context.clone())
+            Payload::with_received(
+                rr,
+                context.clone().into(),
+                None,
+                received
+            )));
+
+        let context = FreshRouteContext {
+            status: RouteStatus::Active,
+            ..context
+        };
 
         payloads.extend(
             //rws.into_iter().map(|rws| mk_payload(rws, received, context.clone()))
@@ -646,20 +662,6 @@ impl Processor {
                 )
             }),
         );
-
-        let context = FreshRouteContext {
-            status: RouteStatus::Withdrawn,
-            ..context
-        };
-
-        payloads.extend(rr_unreach.into_iter().map(|rr|
-            //mk_payload(wds, received, context.clone())
-            Payload::with_received(
-                rr,
-                context.clone().into(),
-                None,
-                received
-            )));
 
         Ok(payloads.into())
     }
